@@ -128,6 +128,9 @@ fn one(b: &mut Batcher, label: String, cfg: RunCfg) {
 }
 
 pub fn main(args: &Args) -> i32 {
+    // --ops A,B,C restricts the driver to these operations
+    let only: Option<Vec<String>> = args.extra.get("ops").map(|s| s.split(',').map(|x| x.to_string()).collect());
+    let wanted = |op: &Op| only.as_ref().map(|o| o.iter().any(|n| n == ops::name(op))).unwrap_or(true);
     let mut b = Batcher::new(&args.out, "vmops", 150_000);
     let mut rng = SmallRng::seed_from_u64(args.seed ^ 0xC08);
     let maxlen = if args.thorough { 4 } else { 3 };
@@ -135,7 +138,7 @@ pub fn main(args: &Args) -> i32 {
     let shapes = shapes();
     let mut n = 0u64;
     // (A) boundary-exhaustive single ops
-    for op in all_ops() {
+    for op in all_ops().into_iter().filter(|o| wanted(o)) {
         for (si, st) in sts.iter().enumerate() {
             for (hi, sh) in shapes.iter().enumerate() {
                 n += 1;
@@ -150,7 +153,7 @@ pub fn main(args: &Args) -> i32 {
     }
     // (B) at the real limits
     let tops: Vec<Vec<i64>> = stacks(2).into_iter().filter(|s| s.len() == 2).collect();
-    for op in all_ops() {
+    for op in all_ops().into_iter().filter(|o| wanted(o)) {
         for fill in [4094usize, 4095, 4096] {
             for (ti, top) in tops.iter().enumerate() {
                 n += 1;
@@ -169,6 +172,9 @@ pub fn main(args: &Args) -> i32 {
     }
     for opn in ["ALOC", "FREE", "LOD", "STO", "LODR", "STOR", "KRNG", "PKRNG", "COM"] {
         let op = ops::by_name(opn).unwrap();
+        if !wanted(&op) {
+            continue;
+        }
         for msize in [10238usize, 10239, 10240] {
             for st in sts.iter().filter(|s| s.len() <= 2) {
                 n += 1;
@@ -200,7 +206,7 @@ pub fn main(args: &Args) -> i32 {
         if n % args.shard.1 != args.shard.0 {
             continue;
         }
-        for (k, (op, vm0)) in structured(&mut rng).into_iter().enumerate() {
+        for (k, (op, vm0)) in structured(&mut rng).into_iter().enumerate().filter(|(_, (o, _))| wanted(o)) {
             one(&mut b, format!("C/{}/{}/{}", ops::name(&op), i, k), std_cfg(vec![op], vm0));
         }
     }
@@ -408,4 +414,109 @@ pub fn structured(rng: &mut SmallRng) -> Vec<(Op, Snap)> {
         out.push((by("REP"), Snap { st, ..Default::default() }));
     }
     out
+}
+
+
+/// C11: the four key-range reads against scripted, recording pre / post views with different
+/// contents: every (op, key, count, address, memory size, answer shape) of the small scope, then
+/// random requests.
+pub fn main_stateread(args: &Args) -> i32 {
+    let mut b = Batcher::new(&args.out, "stateread", 100_000);
+    let mut rng = SmallRng::seed_from_u64(args.seed ^ 0xC11);
+    let mut n = 0u64;
+    let vals: Vec<Vec<i64>> = vec![vec![], vec![7], vec![7, 8]];
+    let mut answers: Vec<Vec<Vec<i64>>> = vec![vec![]];
+    for k in 1..=3usize {
+        let total = 3usize.pow(k as u32);
+        for c in 0..total {
+            let mut x = c;
+            answers.push((0..k).map(|_| { let v = vals[x % 3].clone(); x /= 3; v }).collect());
+        }
+    }
+    let keys: Vec<Vec<i64>> = vec![vec![], vec![9], vec![9, i64::MAX]];
+    let view = |tag: &'static str, mode: Mode| View::new(tag, Default::default(), mode);
+    for opn in ["KRNG", "KREX", "PKRNG", "PKREX"] {
+        let op = ops::by_name(opn).unwrap();
+        let is_post = opn.starts_with('P');
+        for key in &keys {
+            for klen_fix in [None, Some(-1i64), Some(5)] {
+                for cnt in [-1i64, 0, 1, 3] {
+                    for m in [0usize, 3, 8] {
+                        for addr in -1..=(m as i64 + 1) {
+                            for (ai, ans) in answers.iter().enumerate() {
+                                n += 1;
+                                if n % args.shard.1 != args.shard.0 {
+                                    continue;
+                                }
+                                if !args.thorough && (klen_fix.is_some() || cnt == -1) && ai % 7 != 0 {
+                                    continue;
+                                }
+                                let mut st = vec![40, 41];
+                                if opn.ends_with("EX") {
+                                    st.extend([5, 6, 7, 8]);
+                                }
+                                st.extend(key);
+                                st.push(klen_fix.unwrap_or(key.len() as i64));
+                                st.push(cnt);
+                                st.push(addr);
+                                let vm0 = Snap { st, mem: (0..m as i64).map(|i| 50 + i).collect(), ..Default::default() };
+                                let mut cfg = std_cfg(vec![op], vm0);
+                                // the view that must be asked answers with the scripted values, the other
+                                // one with something else entirely
+                                let good = Mode::Scripted(ans.clone());
+                                let other = Mode::Scripted(vec![vec![66, 66, 66]]);
+                                cfg.pre = view("pre", if is_post { other.clone() } else { good.clone() });
+                                cfg.post = view("post", if is_post { good } else { other });
+                                one(&mut b, format!("sr/{opn}/{}/{:?}/{cnt}/{m}/{addr}/{ai}", key.len(), klen_fix), cfg);
+                            }
+                        }
+                    }
+                }
+            }
+        }
+        // state errors
+        for addr in [0i64, 2] {
+            let mut st = vec![40];
+            if opn.ends_with("EX") {
+                st.extend([5, 6, 7, 8]);
+            }
+            st.extend([9, 1, 2, addr]);
+            let mut cfg = std_cfg(vec![op], Snap { st, mem: vec![1; 8], ..Default::default() });
+            cfg.pre = view("pre", Mode::Fail);
+            cfg.post = view("post", Mode::Fail);
+            one(&mut b, format!("sr/{opn}/fail/{addr}"), cfg);
+        }
+    }
+    // random requests at larger sizes through the faithful map state
+    let count = if args.thorough { 20000 } else { 2500 };
+    for i in 0..count {
+        n += 1;
+        if n % args.shard.1 != args.shard.0 {
+            continue;
+        }
+        let opn = ["KRNG", "KREX", "PKRNG", "PKREX"][rng.gen_range(0..4)];
+        let m = rng.gen_range(0..200usize);
+        let klen = rng.gen_range(0..33usize);
+        let key: Vec<i64> = (0..klen).map(|_| rw(&mut rng)).collect();
+        let nvals = rng.gen_range(0..12usize);
+        let ans: Vec<Vec<i64>> = (0..nvals).map(|_| (0..rng.gen_range(0..20)).map(|_| rng.gen_range(0..99)).collect()).collect();
+        let nb = rng.gen_range(0..4);
+        let mut st: Vec<i64> = rwords(&mut rng, nb);
+        if opn.ends_with("EX") {
+            let a = rng.gen_range(0..3) * 1000;
+            st.extend([a, a + 1, a + 2, a + 3]);
+        }
+        st.extend(&key);
+        st.push(plen(&mut rng, klen));
+        st.push(match rng.gen_range(0..10) { 0 => -1, 1 => i64::MAX, _ => rng.gen_range(0..70) });
+        st.push(match rng.gen_range(0..10) { 0 => -1, 1 => m as i64, _ => rng.gen_range(0..(m as i64 + 1)) });
+        let mut cfg = std_cfg(vec![ops::by_name(opn).unwrap()], Snap { st, mem: rwords(&mut rng, m), ..Default::default() });
+        let is_post = opn.starts_with('P');
+        let good = Mode::Scripted(ans);
+        let other = Mode::Scripted(vec![vec![1], vec![2]]);
+        cfg.pre = view("pre", if is_post { other.clone() } else { good.clone() });
+        cfg.post = view("post", if is_post { good } else { other });
+        one(&mut b, format!("sr/rand/{i}"), cfg);
+    }
+    b.finish(json!({"driver": "stateread"}))
 }
